@@ -396,6 +396,7 @@ type recScanner struct {
 	calls64  map[uint64]int // keyed by address<<16|port
 	outcome  map[uint32]int
 	errs     map[uint32]error
+	allErrs  []error // every error value returned, in order
 	startSeq []int64
 	endSeq   []int64
 	startT   []time.Time
@@ -474,6 +475,7 @@ func (s *recScanner) Scan(ctx context.Context, r *scan.Request) (scan.Result, er
 	s.outcome[id] = out
 	if err != nil {
 		s.errs[id] = err
+		s.allErrs = append(s.allErrs, err)
 	}
 	s.endSeq = append(s.endSeq, s.clock.tick())
 	s.mu.Unlock()
